@@ -101,6 +101,12 @@ def run_level(ctx, ss):
             except Exception as E:
                 raise Broken('correspondence', f'real run {name} failed: {type(E).__name__}: {E}')
             hist0 = {id(d): (int(d.history[0]['state']['state']), int(d.history[0]['state']['inc'])) for d in sim.dists.dists.values() if d.history}
+            # premises of the full-period theorem (C04_distinct_indices_distinct_states), on every real generator: odd increment, state below 2^128
+            for tr, d in sim.dists.dists.items():
+                if d.history:
+                    st0, inc0 = int(d.history[0]['state']['state']), int(d.history[0]['state']['inc'])
+                    if inc0 % 2 != 1 or not (0 <= st0 < 2**128) or type(d.rng.bit_generator).__name__ != 'PCG64':
+                        ctx.broke('correspondence', f'{name}: generator of {tr} does not meet the premises of the full-period theorem (PCG64, odd increment, state < 2^128)', repr(dict(trace=tr, inc=inc0, state=st0, bitgen=type(d.rng.bit_generator).__name__)))
             seeds = {}
             for tr, d in sim.dists.dists.items():
                 if d.seed in seeds:
